@@ -1,6 +1,7 @@
 //! C16 — values sharing a parsed arena stay valid in any clone, move and drop order.
 
 use serde::Deserialize;
+use sonic_rs::JsonContainerTrait as _;
 use sonic_rs::{Deserializer, JsonValueMutTrait, JsonValueTrait, PointerNode, Value};
 use vbase::alloc;
 use vbase::engine::{Ctx, Fail, Obs, Src, Sub};
@@ -119,7 +120,7 @@ fn run_history(case: &[u8], allow_threads: bool, allow_big: bool) -> Result<(boo
     let mut st = St { hs: (0..8).map(|_| None).collect(), log: Vec::new(), nontrivial: false, dropped_roots: Vec::new() };
     let nops = 2 + src.below(30);
     for _ in 0..nops {
-        let op = src.below(21);
+        let op = src.below(23);
         let live = st.live();
         let pick = |src: &mut Src, live: &Vec<usize>| -> Option<usize> { if live.is_empty() { None } else { Some(live[src.below(live.len())]) } };
         let name: String;
@@ -394,6 +395,75 @@ fn run_history(case: &[u8], allow_threads: bool, allow_big: bool) -> Result<(boo
                     st.hs[a] = Some(H { v, m, root, root_dropped: rd });
                 }
             }
+            21 => {
+                // a by-value array iterator and a clone of it (read on another thread when allowed): each must
+                // see all remaining elements, whatever the other one does
+                let Some(a) = pick(&mut src, &live) else { continue };
+                let path = choose_path(&st.hs[a].as_ref().unwrap().m, &mut src);
+                name = format!("into_iter of holder {a} at {path:?}, cloned");
+                let h = st.hs[a].as_ref().unwrap();
+                if let (Some(v), Some(M::Arr(items))) = (h.v.pointer(&path), m_at(&h.m, &path)) {
+                    if let Some(arr) = v.as_array() {
+                        let mut it = arr.clone().into_iter();
+                        let skip = src.below(2);
+                        let mut want: Vec<String> = items.iter().map(mdump).collect();
+                        for _ in 0..skip {
+                            let _ = it.next();
+                            if !want.is_empty() {
+                                want.remove(0);
+                            }
+                        }
+                        let twin = it.clone();
+                        let second: Vec<String> = if allow_threads {
+                            std::thread::spawn(move || twin.map(|x| dump(&x)).collect::<Vec<_>>()).join().map_err(|_| Fail::new("C16/thread-panicked", "iterator thread panicked"))?
+                        } else {
+                            twin.map(|x| dump(&x)).collect()
+                        };
+                        let first: Vec<String> = it.map(|x| dump(&x)).collect();
+                        ensure!(first == want && second == want, "C16/holder-corrupted/iterator-clone", "after [{}] {name}: the iterator yields {:?}, its clone {:?}, expected {:?}", st.log.join("; "), first, second, want);
+                        st.nontrivial = true;
+                    }
+                }
+            }
+            22 if allow_big => {
+                // one deserializer reads > 4 MiB of documents whose values are dropped before the next one
+                // is read (nothing keeps the deserializer's arena alive in between)
+                name = "long stream through one deserializer, values dropped in between".into();
+                static TEXT: std::sync::OnceLock<String> = std::sync::OnceLock::new();
+                let text = TEXT.get_or_init(|| {
+                    let mut one = String::from("[");
+                    for i in 0..4000 {
+                        if i > 0 {
+                            one.push(',');
+                        }
+                        one.push_str("{\"k\":[1,2],\"s\":\"abcdefgh\"}");
+                    }
+                    one.push(']');
+                    let mut t = String::from("0");
+                    for _ in 0..48 {
+                        t.push(' ');
+                        t.push_str(&one);
+                    }
+                    t
+                });
+                let mut de = Deserializer::from_str(text);
+                let _z: Value = de.deserialize().unwrap();
+                let mut kept: Option<Value> = None;
+                for k in 0..48 {
+                    let v: Value = de.deserialize().map_err(|e| Fail::new("C16/rejects-valid", format!("document {k} of the long stream: {e}")))?;
+                    let ok = v.as_array().map(|a| a.len()) == Some(4000) && v[3999]["s"].as_str() == Some("abcdefgh") && v[0]["k"][1].as_u64() == Some(2) && v[2000]["k"].as_array().map(|a| a.len()) == Some(2);
+                    ensure!(ok, "C16/holder-corrupted/long-stream", "document {k} of a long stream reads wrong: {}", trunc(&dump(&v[3999]), 100));
+                    if k % 16 == 7 && src.bool() {
+                        kept = Some(v[1].clone());
+                    } else if k % 16 == 15 {
+                        kept = None;
+                    }
+                }
+                drop(de);
+                if let Some(kv) = kept {
+                    ensure!(dump(&kv) == "{\"k\":[u1,u2],\"s\":\"abcdefgh\"}", "C16/holder-corrupted/long-stream", "a value kept from a long stream reads {}", trunc(&dump(&kv), 100));
+                }
+            }
             14 if allow_big => {
                 name = "parse a document above the thread-local buffer threshold".into();
                 let d = big_doc();
@@ -470,9 +540,14 @@ pub fn oracle_threads(case: &[u8], obs: &mut Obs) -> Result<(), Fail> {
     // histories with hand-off to other threads: the oracle is the dumps (and the quarantine);
     // leak accounting for these runs through the global counters in `oracle_stress`
     alloc::set_strict(true);
-    let r = run_history(case, true, case.first().map(|b| b % 64 == 0).unwrap_or(false));
+    let f0 = alloc::faults();
+    let r = run_history(case, true, case.first().map(|b| b % 16 == 0).unwrap_or(false));
+    alloc::flush_quarantine();
     alloc::set_strict(false);
+    let f1 = alloc::faults();
     let r = r?;
+    ensure!(f1.0 == f0.0, "C16/double-free", "a block was freed twice during [{}]", r.1);
+    ensure!(f1.1 == f0.1, "C16/write-after-free", "freed memory was written during [{}]", r.1);
     if r.0 {
         obs.nt();
     }
